@@ -249,12 +249,12 @@ type c19Case struct {
 //	get      the same helper using context::get
 //	bashc    bash -c 'source <lib>; context::jq …'
 //	nested   the helper script starts the helper script (two execs deep)
-//	envjq    env jq '.[env.BINDING_CONTEXT_CURRENT_INDEX|tonumber]' <file> — a program that is not bash
-var c19Looks = []string{"subst", "subshell", "pipe", "bg", "script", "get", "bashc", "nested", "envjq"}
+//	xargs    the helper started through other programs (env, xargs) that are not bash
+var c19Looks = []string{"subst", "subshell", "pipe", "bg", "script", "get", "bashc", "nested", "xargs"}
 
 func c19LookClass(m string) string {
 	switch m {
-	case "script", "get", "bashc", "nested", "envjq":
+	case "script", "get", "bashc", "nested", "xargs":
 		return "exec"
 	}
 	return "shell"
@@ -315,7 +315,7 @@ function __verif_handler() {
     get) look=$("$VERIF_DIR/look.sh" get < /dev/null 2>> "$VERIF_DIR/look.err") || look=fail;;
     nested) look=$("$VERIF_DIR/look.sh" nested < /dev/null 2>> "$VERIF_DIR/look.err") || look=fail;;
     bashc) look=$(bash -c 'source "$0"; echo "${BINDING_CONTEXT_CURRENT_INDEX-unset} $(context::jq -r .vid) ${BINDING_CONTEXT_CURRENT_BINDING-unset}"' "$VERIF_LIB" < /dev/null 2>> "$VERIF_DIR/look.err") || look=fail;;
-    envjq) look=$(env jq -r '"\(env.BINDING_CONTEXT_CURRENT_INDEX // "unset") \(.[env.BINDING_CONTEXT_CURRENT_INDEX|tonumber].vid) \(env.BINDING_CONTEXT_CURRENT_BINDING // "unset")"' "$BINDING_CONTEXT_PATH" < /dev/null 2>> "$VERIF_DIR/look.err") || look=fail;;
+    xargs) look=$(echo get | env -u VERIF_NO_SUCH_VARIABLE xargs "$VERIF_DIR/look.sh" 2>> "$VERIF_DIR/look.err") || look=fail;;
   esac
   [[ -n "$look" ]] || look=fail
   echo "$BINDING_CONTEXT_CURRENT_INDEX $1 $(context::jq -r '.vid') $BINDING_CONTEXT_CURRENT_BINDING $seen ${look// /|}" >> "$VERIF_LOG"
@@ -571,7 +571,7 @@ func c19RandLooks(rng *Rng, defined []string, p int) map[string]string {
 	for _, d := range defined {
 		if rng.Chance(p) {
 			if rng.Chance(60) {
-				m[d] = PickOne(rng, []string{"script", "get", "bashc", "nested", "envjq"})
+				m[d] = PickOne(rng, []string{"script", "get", "bashc", "nested", "xargs"})
 			} else {
 				m[d] = PickOne(rng, c19Looks)
 			}
@@ -625,7 +625,7 @@ func runC19(r *Run) {
 	// a case runs bash up to three times (each bounded by 40 s and reported inconclusive on timeout):
 	// keep the per-case watchdog above that so a loaded machine never shows up as a `hang`
 	r.CaseTimeout = 150 * time.Second
-	r.Rule = "real bash runs of generated hook scripts that source the repository's shell_lib.sh + frameworks/shell/*.sh: (1) exhaustive single-context cases = every context kind (onStartup, Synchronization, Event Added/Modified/Deleted, Group, Schedule, Validating, Mutating, Conversion) x every subset of its documented candidates + __main__ (76 cases); (2) random arrays of 0..6 contexts of every kind incl. odd shapes (unknown type, no type, no binding, unknown watchEvent, onStartup with a type), random subsets of candidate functions plus decoy functions of other bindings/kinds, failures scripted by context index or handler name ending with return 3 / exit 2 / `false` under set -e, args none / --config / other; thorough adds all ordered pairs of kinds x {all specific handlers, only __main__, nothing for the first, nothing for the second} x failure at {none, first, second}. Observation: (index, handler, context read through context::jq) per invocation in order, config marker on stdout, exit status; plus the output of hook::_get_possible_handler_names per context. Non-trivial: at least one context and not --config; distinct = distinct op-line sequences."
+	r.Rule = "real bash runs of generated hook scripts that source the repository's shell_lib.sh + frameworks/shell/*.sh: (1) exhaustive single-context cases = every context kind (onStartup, Synchronization, Event Added/Modified/Deleted, Group, Schedule, Validating, Mutating, Conversion) x every subset of its documented candidates + __main__ (76 cases); (2) random arrays of 0..6 contexts of every kind incl. odd shapes (unknown type, no type, no binding, unknown watchEvent, onStartup with a type), random subsets of candidate functions plus decoy functions of other bindings/kinds, failures scripted by context index or handler name ending with return 3 / exit 2 / `false` under set -e, args none / --config / other; thorough adds all ordered pairs of kinds x {all specific handlers, only __main__, nothing for the first, nothing for the second} x failure at {none, first, second}. Every defined function also gets a place it looks at the current context from (its own shell: $(…), ( … ), a pipeline element, a background job; or a NEW PROGRAM: an executable helper script that sources the library again and calls context::jq or context::get, bash -c, the helper two execs deep, the helper started through env | xargs), and 15 % of the hooks are started with a stale BINDING_CONTEXT_CURRENT_* selection in their environment; corpus cases 8 (one function, helper script, three contexts) and 9 (one context per way of looking, last handler fails, with and without a stale inherited selection). Observation: (index, handler, context read through context::jq, and index / context / binding seen from where the handler looks) per invocation in order, config marker on stdout, exit status; plus the output of hook::_get_possible_handler_names per context. Non-trivial: at least one context and not --config; distinct = distinct op-line sequences."
 	bindings := []string{"pods", "monitor-pods", "cfg.v1", "kubernetes", "schedule", "a_b", "main", "every*min", "x[1]", "what?"}
 	groups := []string{"g1", "grp-a", "pods"}
 
@@ -694,7 +694,7 @@ func runC19(r *Run) {
 			looks:   map[string]string{"__on_kubernetes::pods::added": "script"}, failMode: "return3"}, "a")
 	})
 	r.One(9, func(c *Case, _ *Rng) {
-		c.Desc = "corpus: every way of looking at the current context (forks of the handler's shell, helper script, context::get, bash -c, two execs deep, a non-bash program reading the environment), one per context; the hook process inherits a stale selection; the last handler fails"
+		c.Desc = "corpus: every way of looking at the current context (forks of the handler's shell, helper script, context::get, bash -c, two execs deep, started through env and xargs), one per context; the hook process inherits a stale selection; the last handler fails"
 		c.Nontrivial = true
 		var k c19Case
 		k.looks = map[string]string{}
